@@ -79,5 +79,87 @@ def run(tier: str, seed: int, reg: Any, jobs: int = 16) -> list:
         except Exception as e:  # pylint: disable=broad-except
             if len(fails) < 4:
                 fails.append({"inputs": {"config": os.path.relpath(cfgp, repo)}, "detail": f"{type(e).__name__}: {e}", "obligation": "ahab-build-parse-verify"})
-    return [{"name": "AHAB example configurations: build / parse / verify / flags decode", "function": "spsdk.image.ahab.ahab_image:AHABImage",
+    return [_revocation_sweep(repo, tier), {"name": "AHAB example configurations: build / parse / verify / flags decode", "function": "spsdk.image.ahab.ahab_image:AHABImage",
              "method": "repository example configurations", "bound": f"{n} images", "cases": max(n, 1), "label": "bounded", "failures": fails}]
+
+
+def _revocation_sweep(repo: str, tier: str) -> dict:
+    """Every (used SRK, revocation mask) pair of an OEM-signed container: the flags word carries both, the signature verifies - checked with
+    cryptography over the bytes in front of the signature container with the key taken from the exported SRK table - and SPSDK's own verifier,
+    run on the parsed binary, reports an error exactly when the used key's own revocation bit is set."""
+    import struct
+    import tempfile
+
+    from cryptography.exceptions import InvalidSignature
+    from cryptography.hazmat.primitives import hashes
+    from cryptography.hazmat.primitives.asymmetric import ec
+    from cryptography.hazmat.primitives.asymmetric.utils import encode_dss_signature
+
+    from spsdk.image.ahab.ahab_image import AHABImage
+    from spsdk.utils.verifier import VerifierResult
+
+    keys = os.path.join(repo, "tests", "_data", "keys", "ecc256")
+    fails: list = []
+    n = 0
+    pairs = [(u, m) for u in range(4) for m in range(16)]
+
+    def errors_of(v: Any, path: list) -> list:
+        out = []
+        for r in v.records:
+            if hasattr(r, "records"):
+                out += errors_of(r, path + [r.name])
+            elif r.result == VerifierResult.ERROR:
+                out.append("/".join(path + [r.name]))
+        return out
+
+    with tempfile.TemporaryDirectory(prefix="vf-c06-") as tmp:
+        app = os.path.join(tmp, "app.bin")
+        with open(app, "wb") as fh:
+            fh.write(bytes((i * 11 + 5) & 0xFF for i in range(1234)))
+        for used, mask in pairs:
+            n += 1
+            problems: list = []
+            try:
+                cfg = {"family": "mimxrt1189", "revision": "a0", "target_memory": "standard", "output": "x.bin", "containers": [{"container": {
+                    "srk_set": "oem", "used_srk_id": used, "srk_revoke_mask": mask, "fuse_version": 0, "sw_version": 0,
+                    "signing_key": os.path.join(keys, f"srk{used}_ecc256.pem"),
+                    "images": [{"image_path": app, "image_offset": 0x2000, "load_address": 0x1FFE0000, "entry_point": 0x1FFE0000, "image_type": "executable",
+                                "core_id": "cortex-m33", "is_encrypted": False, "hash_type": "sha256"}],
+                    "srk_table": {"srk_array": [os.path.join(keys, f"srk{i}_ecc256.pub") for i in range(4)]}}}]}
+                img = AHABImage.load_from_config(cfg, search_paths=[tmp])
+                img.update_fields()
+                data = img.export()
+                flags, _sw, _fv, _ni, sb_off, _r = struct.unpack_from("<IHBBHH", data, 4)
+                if (flags & 3, (flags >> 4) & 3, (flags >> 8) & 0xF) != (2, used, mask):
+                    problems.append(f"flags word {flags:#x} does not carry OEM / used key {used} / mask {mask:#x}")
+                _v, _l, _t, _cert, srk_off, sig_off, _blob, _kid = struct.unpack_from("<BHBHHHHI", data, sb_off)
+                rec = sb_off + srk_off + 4
+                pubs = []
+                for _ in range(4):
+                    _rt, r_len, _alg, _h, _c, _x, _f, len_x, len_y = struct.unpack_from("<BHBBBBBHH", data, rec)
+                    pubs.append(ec.EllipticCurvePublicNumbers(int.from_bytes(data[rec + 12: rec + 12 + len_x], "big"),
+                                                              int.from_bytes(data[rec + 12 + len_x: rec + 12 + len_x + len_y], "big"), ec.SECP256R1()).public_key())
+                    rec += r_len
+                _sv, s_len, _st = struct.unpack_from("<BHB", data, sb_off + sig_off)
+                raw = data[sb_off + sig_off + 8: sb_off + sig_off + s_len]
+                try:
+                    pubs[used].verify(encode_dss_signature(int.from_bytes(raw[:32], "big"), int.from_bytes(raw[32:], "big")), bytes(data[: sb_off + sig_off]),
+                                      ec.ECDSA(hashes.SHA256()))
+                except InvalidSignature:
+                    problems.append("the container signature does not verify under the SRK the flags word selects")
+                back = AHABImage("mimxrt1189", "a0", "standard")
+                back.parse(data)
+                ver = back.verify()
+                errs = errors_of(ver, [ver.name])
+                revoked = bool((mask >> used) & 1)
+                if revoked and not any("Used SRK key ID" in e for e in errs):
+                    problems.append("the used key is revoked by the mask but the verifier does not say so")
+                if not revoked and errs:
+                    problems.append(f"valid container (used key not revoked) reported as erroneous: {errs[:3]}")
+            except Exception as e:  # pylint: disable=broad-except
+                problems.append(f"{type(e).__name__}: {e}")
+            if problems and len(fails) < 4:
+                fails.append({"inputs": {"used_srk_id": used, "srk_revoke_mask": mask}, "detail": "; ".join(problems), "obligation": "ahab-revocation-mask-and-used-key"})
+    return {"name": "AHAB OEM-signed container over every used key x revocation mask", "function": "spsdk.image.ahab.ahab_image:AHABImage (export / parse / verify)",
+            "method": "repository P-256 SRK test keys; flags and SRK table decoded with struct, signature verified with cryptography, SPSDK verifier on the parsed binary",
+            "bound": f"{n} (used key, mask) pairs", "cases": n, "label": "bounded", "failures": fails}
